@@ -563,6 +563,11 @@ def deep_eq(E, a, b):
     b = E.deref(b)
     if isinstance(a, LazyV) and isinstance(b, LazyV) and a.name == b.name:
         return True
+    # an unexamined enum compared with an examined one: examine it (forks on the variant)
+    if isinstance(a, LazyV) and isinstance(b, EnumV) and type_head(a.ty or '') in ('Option', 'Result'):
+        n, a = variant(E, a)
+    elif isinstance(b, LazyV) and isinstance(a, EnumV) and type_head(b.ty or '') in ('Option', 'Result'):
+        n, b = variant(E, b)
     if isinstance(a, IntV) and isinstance(b, IntV):
         return a.v == b.v
     if isinstance(a, BigV) and isinstance(b, BigV):
